@@ -8,6 +8,7 @@ from ..absval import ABytes, UNK, ABuiltin, AObj
 from ..rules_g import (Row, run_row, ObsRow, run_obs, I, S, Mult, Pred, OBJ, B,
                        INT, LEN, INJECT)
 from ..rules_v import check_verify
+from ..core import AnalysisError
 
 EXPLANATION = (
     "K/def-use: PBKDF2 (generic path), HKDF extract/expand, SP 800-108 counter "
@@ -259,6 +260,96 @@ def bcrypt_value_rows(check, repo):
     check.count("bcrypt_rows", n + rows)
 
 
+def s2v_sequence_rows(check, repo):
+    """_S2V as an object: derive() is an observer (RFC 5297 2.4 is a function of the components given so far), so
+    derive() twice, and update .. derive .. update .. derive, give S2V of the respective component lists.  The real
+    update / derive / _double code is interpreted with CMAC replaced by a fixed keyed stand-in (SHA-256 of key and
+    message, 16 bytes) and compared with the checker's own S2V over that stand-in, for component lengths on both
+    sides of the 16-byte boundary (xorend / pad branches), the empty string and the empty vector included."""
+    import hashlib
+    from ..absint import Interp
+    from ..absstate import State
+
+    def mac(key, msg):
+        return hashlib.sha256(b"CMAC" + bytes(key) + b"|" + bytes(msg)).digest()[:16]
+
+    def dbl(bs):
+        v = int.from_bytes(bs, "big") << 1
+        if bs[0] & 0x80:
+            v ^= 0x87
+        return (v & ((1 << 128) - 1)).to_bytes(16, "big")
+
+    def xor(a, b):
+        return bytes(x ^ y for x, y in zip(a, b))
+
+    def ref(key, comps):
+        # RFC 5297 2.4 with the library's convention that the zero block is the implicit first string
+        strings = [bytes(16)] + list(comps)
+        D = bytes(16)
+        for sx in strings[:-1]:
+            D = xor(dbl(D), mac(key, sx))
+        last = strings[-1]
+        T = last[:-16] + xor(last[-16:], D) if len(last) >= 16 else xor(dbl(D), (last + b"\x80" + bytes(15))[:16])
+        return mac(key, T)
+    mod = repo.module(KDF)
+    cls = repo.cls(mod, "_S2V")
+
+    def m_cmac_new(i, a, kw, st, node):
+        key = a[0] if a else kw.get("key")
+        msg = kw.get("msg", a[1] if len(a) > 1 else None)
+        ok = isinstance(key, (bytes, bytearray)) and isinstance(msg, (bytes, bytearray))
+        return i.new_obj(st, label="cmac", attrs={"out": mac(key, msg) if ok else None})
+
+    def mm_digest(i, base, a, kw, st, node):
+        return st.heap.get(getattr(base, "ident", -1), {}).get("out") or ABytes(16)
+    key = bytes(range(0x10, 0x30))
+    P = lambda n, s: bytes((s + 5 * j) & 0xFF for j in range(n))
+    # a history is a list of steps: bytes = update(component), None = derive()
+    histories = [
+        [None, None], [P(0, 1), None, None], [P(5, 1), None, None], [P(15, 2), None, None], [P(16, 3), None, None], [P(40, 4), None, None],
+        [P(5, 1), None, P(7, 2), None], [P(16, 1), None, P(3, 2), None, None], [P(3, 1), P(20, 2), None, P(0, 3), None, P(33, 4), None, None],
+        [P(0x10, 0x80), P(1, 0x80), None, None, P(15, 0xFF), None],
+    ]
+    wrong = []
+    n = 0
+    for h in histories:
+        it = Interp(repo, max_depth=4, extra_models={"Crypto.Hash.CMAC.new": m_cmac_new}, method_models={"digest": mm_digest})
+        st = State()
+        me = it.new_obj(st, mod, cls, havoc=False)
+        cm = it.new_obj(st, label="ciphermod", attrs={"block_size": 16})
+        res = it.run(mod, repo.func(mod, "_S2V.__init__"), {"key": key, "ciphermod": cm, "cipher_params": None}, self_obj=me, state=st)
+        if len(res.returns()) != 1:
+            raise AnalysisError("_S2V.__init__ could not be interpreted")
+        cur = res.returns()[0].state
+        comps = []
+        for k, step in enumerate(h):
+            cur.frames = [{}]
+            if step is None:
+                res = it.run(mod, repo.func(mod, "_S2V.derive"), {}, self_obj=me, state=cur)
+            else:
+                comps.append(step)
+                res = it.run(mod, repo.func(mod, "_S2V.update"), {"item": step}, self_obj=me, state=cur)
+            if len(res.returns()) != 1 or res.raises():
+                wrong.append("history %s: step %d not decided (%s)" % (_hist(h), k + 1, res.raise_classes()))
+                break
+            cur = res.returns()[0].state
+            if step is None:
+                n += 1
+                got, want = res.returns()[0].value, ref(key, comps)
+                if not isinstance(got, (bytes, bytearray)) or bytes(got) != want:
+                    wrong.append("history %s: derive() at step %d returns %s, S2V of the %d components so far is %s" % (
+                        _hist(h), k + 1, bytes(got).hex()[:16] if isinstance(got, (bytes, bytearray)) else got, len(comps), want.hex()[:16]))
+                    break
+    fn = repo.func(mod, "_S2V.derive")
+    check.ob("SEG", "SEG|s2v.histories", not wrong, mod.path, fn.lineno,
+             extracted=("%d histories differ: " % len(wrong) + "; ".join(wrong[:3])) if wrong else "%d derive() results over %d update/derive histories equal S2V of the components given so far" % (n, len(histories)),
+             expected="RFC 5297 2.4: derive() does not alter the accumulator D or the last string (calling it again, or continuing with update(), is well defined)")
+
+
+def _hist(h):
+    return "[" + ", ".join("derive" if x is None else "update(%d bytes)" % len(x) for x in h) + "]"
+
+
 def run(check, ctx):
     repo = ctx.repo
     PRF = ABuiltin("vstat.prf")
@@ -414,6 +505,7 @@ def run(check, ctx):
     info = check_verify(check, repo, KDF, "bcrypt_check", "bcrypt_hash", ("nothing",), keyprefix="V",
                         expected_locals=("bcrypt_hash2",))
     bcrypt_value_rows(check, repo)
+    s2v_sequence_rows(check, repo)
     # HMAC key preparation is part of PBKDF2/HKDF's specification (RFC 2104)
     from .c03_extra import hmac_rows
     hmac_rows(check, repo, prop="C12")
